@@ -645,7 +645,8 @@ class Image:
             full_coordinate = np.zeros(self.space_dim, dtype=float)
             full_coordinate["xyz"[: self.space_dim].find(axis)] = cut
             cut_voxel = self.coordinatesystem.voxel(full_coordinate)
-            axis = darsia.to_matrix_indexing(axis, "xyz"[: self.space_dim])
+            matrix_axis = darsia.to_matrix_indexing(axis, "xyz"[: self.space_dim])
+            axis = "ijk".find(matrix_axis)
             cut = cut_voxel[axis]
 
         # Make auxiliary use of axis averaging for formatting
